@@ -26,6 +26,7 @@ CONSTANTS NW,        \* worker ids 1..NW (bound on simultaneously existing threa
           NC,        \* number of client threads
           Tasks,     \* set of task ids (positive naturals)
           MaxOps,    \* operation budget per client: function Clients -> Nat
+          WithClear, \* is clear() (on a pool in any state) among the operations of the controlling client?
           FixJoin, FixGrow
 
 W == 1..NW
@@ -66,6 +67,7 @@ InitWith(mx, mn, g) ==
 (* clients *)
 
 Ops(c) == (IF c = 1 THEN {<<"start">>, <<"stop">>} ELSE {})
+          \cup (IF WithClear /\ c = 1 THEN {<<"clear">>} ELSE {})
           \cup {<<"join">>, <<"joint">>}
           \cup {<<"enq", t>> : t \in {t \in Tasks : ts[t] = "new"}}
           \cup (IF c = 1 THEN {<<"release", t>> : t \in {t \in gated : t \notin released}} ELSE {})
@@ -79,7 +81,7 @@ Fetch(c, op) ==
   /\ op[1] = "enq" => \A d \in Clients \ {c} : ~(cpc[d] \in {"e1"} /\ cop[d] = op)
   /\ cop' = [cop EXCEPT ![c] = op] /\ nops' = [nops EXCEPT ![c] = @ + 1]
   /\ Goto(c, CASE op[1] = "start" -> "s1" [] op[1] = "stop" -> "p1" [] op[1] = "join" -> "j1"
-               [] op[1] = "joint" -> "j1" [] op[1] = "enq" -> "e1" [] op[1] = "release" -> "r1")
+               [] op[1] = "joint" -> "j1" [] op[1] = "enq" -> "e1" [] op[1] = "release" -> "r1" [] op[1] = "clear" -> "p6")
   /\ phase' = IF op[1] = "start" /\ phase = "stopped" THEN "starting" ELSE phase
   /\ SetCl(c, [Cl0 EXCEPT !.snap = {t \in Tasks : ts[t] # "new"}])
   /\ obs' = [obs EXCEPT ![c] = [Obs0 EXCEPT !.clean = (phase = "running")]]
@@ -228,16 +230,19 @@ P6b(c) == /\ cpc[c] = "p6b" /\ lock = CId(c)                      \* get_nowait
                   THEN \* repaired clear(): release, then wait outside the lock only while running
                        /\ lock' = None /\ Goto(c, "p7") /\ UNCHANGED <<q, ts, cop, nops, phase>>
                   ELSE \* original clear(): join() under the lock; the queue is empty => shortcut => release
-                       /\ lock' = None /\ Ret(c) /\ phase' = "stopped" /\ UNCHANGED <<q, ts>>
+                       /\ lock' = None /\ Ret(c) /\ phase' = (IF cop[c][1] = "stop" THEN "stopped" ELSE phase) /\ UNCHANGED <<q, ts>>
           /\ UNCHANGED <<cfgV, stop, unfinished, nbT, nbA, nbP, tlist, workV, execs, released, cl, obs>>
 P6c(c) == /\ cpc[c] = "p6c" /\ unfinished' = unfinished - 1 /\ Goto(c, "p6b")   \* task_done
           /\ UNCHANGED <<cfgV, stop, q, lock, nbT, nbA, nbP, tlist, workV, taskV, cop, cl, nops, phase, obs>>
+EndPhase(c) == IF cop[c][1] = "stop" THEN "stopped" ELSE phase
 P7(c) == /\ cpc[c] = "p7"                                         \* is_set() after the drain
-         /\ IF stop THEN Ret(c) /\ phase' = "stopped"
+         /\ IF stop THEN Ret(c) /\ phase' = EndPhase(c)
                     ELSE Goto(c, "p8") /\ UNCHANGED <<cop, nops, phase>>
          /\ UNCHANGED <<cfgV, poolV, workV, taskV, cl, obs>>
-P8(c) == /\ cpc[c] = "p8" /\ unfinished = 0 /\ Ret(c) /\ phase' = "stopped"   \* join()
-         /\ UNCHANGED <<cfgV, poolV, workV, taskV, cl, obs>>
+\* join() at the end of clear(): everything that was queued has been dropped, everything that was running is over
+P8(c) == /\ cpc[c] = "p8" /\ unfinished = 0 /\ Ret(c) /\ phase' = EndPhase(c)
+         /\ IF cop[c][1] = "clear" THEN JoinDone(c, "true") ELSE UNCHANGED obs
+         /\ UNCHANGED <<cfgV, poolV, workV, taskV, cl>>
 
 ClientStep(c) == Release(c) \/ S1(c) \/ S2(c) \/ S3(c) \/ S4(c) \/ S5(c) \/ S5a(c) \/ S5b(c) \/ S6(c) \/ S6a(c) \/ S6b(c)
                  \/ E1(c) \/ E2(c) \/ E2a(c) \/ E3(c) \/ J1(c) \/ J2(c)
